@@ -105,8 +105,9 @@ function rbql_sample(info) {
 
 
 class SimWriter extends rbql.RBQLOutputWriter {
-    constructor(trace, refuse_at, latency) {
+    constructor(trace, refuse_at, latency, write_result) {
         super();
+        this.write_result = write_result || null;
         this.latency = latency || null;
         this.nwrites = 0;
         this.trace = trace;
@@ -128,6 +129,11 @@ class SimWriter extends rbql.RBQLOutputWriter {
         if (this.refuse_at !== null && this.refuse_at !== undefined && this.rows.length >= this.refuse_at)
             return false;
         this.rows.push(fields);
+        // "go on" is any truthy value: a caller's writer may return what its own stream call returned
+        if (this.write_result == 'count')
+            return fields.length + 1;
+        if (this.write_result == 'str')
+            return 'ok';
         return true;
     }
     set_header(header) {
@@ -210,7 +216,7 @@ async function run_query(req) {
     let input_rows_ref = producer.type != 'endless' ? producer.rows.slice() : null;
     let join_rows_ref = req.join_rows ? req.join_rows.slice() : null;
     let it = new SimIterator(producer, req.header || null, 'a', trace, req.max_pulls === undefined ? null : req.max_pulls);
-    let wr = new SimWriter(trace, req.refuse_at, req.write_latency);
+    let wr = new SimWriter(trace, req.refuse_at, req.write_latency, req.write_result);
     let reg = req.join_rows ? new SimRegistry(req.join_rows, req.join_header || null, trace) : null;
     let warnings = [];
     try {
